@@ -393,12 +393,15 @@ theorem duplicate_root_ids_counted_once :
 /-! ## serial numbers and the signing root -/
 
 /-- A certificate issued by the system is signed by the unique root the table marks active, with
-    the next serial number, which is recorded; roots and config are untouched.  A rejected request
-    changes nothing at all (no serial number is consumed). -/
+    the next serial number, which is recorded; roots and config are untouched; the rate limiter
+    had a token (which is consumed) and the root was not expired.  A rejected request leaves the
+    CA tables unchanged (no serial number is consumed; see `rejected_changes_nothing`). -/
 theorem issued_chains_to_active_root (s : Sys) (az : Authz) (csr : Csr) (s' : Sys) (c : Cert)
     (h : signStep s az csr = (s', .ok c)) :
     ∃ r, activeRoots s.ca = [r] ∧ c.issuer = r.id ∧ c.serial = nextSerial s.ca ∧
-      s'.ca = { s.ca with serial := some c.serial } ∧ providerReady s = true := by
+      s'.ca = { s.ca with serial := some c.serial } ∧
+      (providerReady s = true ∧ s.provKey = true ∧ s.provCert = true ∧ s.provMatch = true) ∧
+      limiterTokens s ≠ some 0 ∧ s.rootExpired = false := by
   unfold signStep at h
   split at h
   · simp at h
@@ -408,32 +411,86 @@ theorem issued_chains_to_active_root (s : Sys) (az : Authz) (csr : Csr) (s' : Sy
       · simp at h
       · rename_i cert hc
         split at h
-        · rename_i hp
-          simp only [Prod.mk.injEq, Except.ok.injEq] at h
-          obtain ⟨rfl, rfl⟩ := h
-          obtain ⟨_, _, _, _, _, hser, hiss⟩ := not_ca _ _ _ _ _ hc
-          exact ⟨r, hr, hiss, hser, by simp [hser], hp⟩
         · simp at h
+        · rename_i hl
+          split at h
+          · simp at h
+          · rename_i hx
+            split at h
+            · rename_i hp
+              split at h
+              · rename_i hcert
+                split at h
+                · rename_i hm
+                  simp only [Prod.mk.injEq, Except.ok.injEq] at h
+                  obtain ⟨rfl, rfl⟩ := h
+                  obtain ⟨_, _, _, _, _, hser, hiss⟩ := not_ca _ _ _ _ _ hc
+                  simp only [Bool.and_eq_true] at hp
+                  exact ⟨r, hr, hiss, hser, by simp [hser], ⟨hp.1, hp.2, hcert, hm⟩, hl, by simpa using hx⟩
+                · simp at h
+              · simp at h
+            · simp at h
     · simp at h
 
+/-- A rejected request leaves the CA tables unchanged — with the one exception the code has: when
+    the provider's private key is not the key of its signing certificate the serial number is
+    taken before `x509.CreateCertificate` notices; that number is then never used by anybody. -/
 theorem rejected_changes_nothing (s : Sys) (az : Authz) (csr : Csr) (s' : Sys) (e : Err)
-    (h : signStep s az csr = (s', .error e)) : s' = s := by
+    (h : signStep s az csr = (s', .error e)) :
+    (s'.ca = s.ca ∨ (e = .keyMismatch ∧ s'.ca = { s.ca with serial := some (nextSerial s.ca) })) ∧
+    (e ≠ .keyMismatch → s'.ca = s.ca) ∧
+    s'.dc = s.dc ∧ s'.mgrProv = s.mgrProv ∧ s'.rootExpired = s.rootExpired := by
   unfold signStep at h
   split at h
-  · simp at h; exact h.1.symm
+  · simp at h; obtain ⟨rfl, _⟩ := h; simp
   · split at h
     · split at h
-      · simp at h; exact h.1.symm
-      · split at h <;> simp at h
-        exact h.1.symm
-    · simp at h; exact h.1.symm
+      · simp at h; obtain ⟨rfl, _⟩ := h; simp
+      · split at h
+        · simp at h; obtain ⟨rfl, _⟩ := h; simp
+        · split at h
+          · simp at h; obtain ⟨rfl, _⟩ := h; simp
+          · split at h
+            · split at h
+              · split at h
+                · simp at h
+                · simp at h; obtain ⟨rfl, rfl⟩ := h; simp
+              · simp at h; obtain ⟨rfl, rfl⟩ := h; simp
+            · simp at h; obtain ⟨rfl, rfl⟩ := h; simp
+    · simp at h; obtain ⟨rfl, _⟩ := h; simp
+
+/-- An exhausted rate limiter and an expired signing root each stop every request, whatever it
+    carries, and no serial number is consumed. -/
+theorem rate_limited_or_expired_never_issues (s : Sys) (az : Authz) (csr : Csr)
+    (h : limiterTokens s = some 0 ∨ s.rootExpired = true) :
+    ∃ e, (signStep s az csr).2 = .error e ∧ (signStep s az csr).1.ca = s.ca := by
+  unfold signStep
+  split
+  · exact ⟨_, rfl, rfl⟩
+  · split
+    · split
+      · exact ⟨_, rfl, rfl⟩
+      · split
+        · exact ⟨_, rfl, rfl⟩
+        · rename_i hl
+          split
+          · exact ⟨_, rfl, rfl⟩
+          · rename_i hx
+            rcases h with h | h
+            · exact absurd h hl
+            · exact absurd h hx
+    · exact ⟨_, rfl, rfl⟩
 
 /-- every operation hands out at most one serial number, and it is the next one -/
 theorem sysStep_serial (s : Sys) (op : SysOp) :
     ((sysStep s op).2 = [] ∧ (sysStep s op).1.ca.serial = s.ca.serial) ∨
     (∃ n, (sysStep s op).2 = [n] ∧ (sysStep s op).1.ca.serial = some n ∧ n = nextSerial s.ca) := by
   cases op with
-  | mgr p => left; simp [sysStep]
+  | mgr p k c => left; simp [sysStep]
+  | restore => left; simp [sysStep, restoreCa]
+  | rate k => left; simp [sysStep]
+  | leader => left; simp [sysStep]
+  | clock e => left; simp [sysStep]
   | ca idx c =>
     have hcs := caStep_serial s.ca idx c
     simp only [sysStep]
@@ -458,8 +515,11 @@ theorem sysStep_serial (s : Sys) (op : SysOp) :
       obtain ⟨r, _, _, hser, hs', _⟩ := issued_chains_to_active_root s az csr s' cert heq
       right; exact ⟨cert.serial, rfl, by simp [hs'], hser⟩
     · rename_i s' e heq
-      have := rejected_changes_nothing s az csr s' e heq
-      left; simp [this]
+      rcases (rejected_changes_nothing s az csr s' e heq).1 with h1 | ⟨_, h1⟩
+      · left; simp [h1]
+      · by_cases hs : s'.ca.serial = s.ca.serial
+        · left; simp [hs]
+        · right; simp only [hs, if_false]; exact ⟨_, rfl, by simp [h1], rfl⟩
 
 /-- **serials_strictly_increase**: along every sequence of CA commands and sign requests the serial
     numbers handed out (to leaf certificates and to `increment-provider-serial` callers alike)
@@ -509,6 +569,90 @@ theorem serials_never_reused (ops : List SysOp) (s : Sys) : (runSerials s ops).2
   have := (serials_strictly_increase ops s).1
   exact this.imp (fun h => Nat.ne_of_lt h)
 
+/-! ## trust-domain allow-list, snapshot-restore, the leader's rotation request -/
+
+/-- **CanSign is an allow-list of the cluster's own trust domain**: it never accepts an agent id,
+    accepts a service / mesh-gateway / server id only when its lower-cased host is the cluster's
+    trust domain, and another signing id only when both render to the same URI. -/
+theorem canSign_sound (cluster : Bytes) (id : Id) (h : canSign cluster id = true) :
+    isAgent id = false ∧
+    (∀ c d, id = .signing c d → (uriOf (.signing cluster bConsul)).str = (uriOf (.signing c d)).str) ∧
+    ((∀ c d, id ≠ .signing c d) → lc (hostOf id) = trustDomainOf cluster) := by
+  have htd : hostOf (.signing cluster bConsul) = trustDomainOf cluster := by
+    simp [hostOf, trustDomainOf, bConsul, bDotConsul, lc_append]
+  cases id with
+  | agent => simp [canSign] at h
+  | signing c d =>
+    refine ⟨rfl, ?_, ?_⟩
+    · intro c' d' he; cases he; simpa [canSign] using h
+    · intro hne; exact absurd rfl (hne c d)
+  | service host ap ns dc svc =>
+    refine ⟨rfl, ?_, fun _ => ?_⟩
+    · intro c d he; cases he
+    · rw [← htd]; simpa [canSign] using h
+  | gateway host ap dc =>
+    refine ⟨rfl, ?_, fun _ => ?_⟩
+    · intro c d he; cases he
+    · rw [← htd]; simpa [canSign] using h
+  | server host dc =>
+    refine ⟨rfl, ?_, fun _ => ?_⟩
+    · intro c d he; cases he
+    · rw [← htd]; simpa [canSign] using h
+
+
+/-- **Snapshot + restore keeps the CA where it was** (same lineage): roots, their index, provider
+    rows and the serial counter are restored as persisted, so the next serial number is the same
+    (`serials_strictly_increase` quantifies over runs containing restores) and the active root is
+    the same. -/
+theorem restore_same_lineage (s : CaState) :
+    (restoreCa s).roots = s.roots ∧ (restoreCa s).rootsIdx = s.rootsIdx ∧ (restoreCa s).provs = s.provs ∧
+    (restoreCa s).serial = s.serial ∧ nextSerial (restoreCa s) = nextSerial s ∧
+    activeRoots (restoreCa s) = activeRoots s := by
+  simp [restoreCa, nextSerial, activeRoots]
+
+
+theorem restore_keeps_one_active_root (s : CaState) (h : RootsOK s) : RootsOK (restoreCa s) := by
+  unfold RootsOK at *
+  rw [(restore_same_lineage s).1, (restore_same_lineage s).2.2.2.2.2]
+  exact h
+
+/-- **The root list the leader builds for a rotation always holds exactly one active root** — the
+    new one — whatever the stored table looks like (any number of roots, the new root's id already
+    present as in a rotation back to an earlier root, even a corrupted table with several active
+    roots): every stored root is copied inactive and the new root comes last, so it wins its id. -/
+theorem rotation_request_has_one_active (old : List Root) (n : Bytes) :
+    activeCount (rotationRoots old (some n)) = 1 := by
+  unfold activeCount lastById rotationRoots
+  rw [List.foldl_append]
+  simp only [List.foldl_cons, List.foldl_nil]
+  have hin : ∀ y ∈ (old.map (fun r : Root => (⟨r.id, false⟩ : ReqRoot))).foldl (upsert (·.id)) [], y.active = false := by
+    apply foldl_upsert_inactive
+    · simp
+    · intro y hy; simp only [List.mem_map] at hy; obtain ⟨r, _, rfl⟩ := hy; rfl
+  have hnd : (((old.map (fun r : Root => (⟨r.id, false⟩ : ReqRoot))).foldl (upsert (·.id)) []).map (·.id)).Nodup :=
+    lastById_from _ [] (by simp)
+  generalize (old.map (fun r : Root => (⟨r.id, false⟩ : ReqRoot))).foldl (upsert (·.id)) [] = acc at hin hnd ⊢
+  unfold upsert
+  split
+  · rename_i hany
+    rw [replace_count acc ⟨n, true⟩ hin hnd rfl, hany]; rfl
+  · rw [List.filter_append]
+    have : acc.filter (·.active) = [] := by
+      simp only [List.filter_eq_nil_iff]
+      intro y hy; simp [hin y hy]
+    simp [this]
+
+
+/-- … hence the store never refuses a rotation request for its active-root count. -/
+theorem rotation_request_never_refused_for_active_count (s : CaState) (idx : Nat) (n : Bytes) :
+    rootsCas s idx s.rootsIdx (rotationRoots s.roots (some n)) ≠ .error .activeCount := by
+  unfold rootsCas
+  rw [rotation_request_has_one_active]
+  simp only [ne_eq, not_true_eq_false, if_false]
+  split
+  · simp
+  · simp
+
 /-! ## non-vacuity -/
 
 def exTd : Bytes := [116, 100, 46, 99, 111, 110, 115, 117, 108]
@@ -551,5 +695,17 @@ example : RootsOK (runCa {} [(5, .setRoots 0 [⟨[97], true⟩]), (9, .setRoots 
   right; decide
 /-- serial numbers along a run with a legacy provider row at index 7: 8, 9 -/
 example : (runSerials {} [.ca 7 (.setProv [112]), .ca 8 .incSerial, .ca 20 (.setProv [113]), .ca 21 .incSerial]).2 = [8, 9] := by decide
+
+/-- a cluster's signing id may sign a service id of its own trust domain (upper-case host), not a foreign one, never an agent -/
+example : canSign [99, 49] (.service [67, 49, 46, 99, 111, 110, 115, 117, 108] bDefault bDefault [100] [119]) = true := by decide
+example : canSign [99, 49] (.service [99, 50, 46, 99, 111, 110, 115, 117, 108] bDefault bDefault [100] [119]) = false := by decide
+example : canSign [99, 49] (.agent [99, 49, 46, 99, 111, 110, 115, 117, 108] bDefault [100] [110]) = false := by decide
+/-- a rotation back to an earlier root: `[a inactive, b active]` + new root `a` gives `[a;0, b;0, a;1]`, one active -/
+example : rotationRoots [⟨[97], false, 5, 9⟩, ⟨[98], true, 9, 9⟩] (some [97]) = [⟨[97], false⟩, ⟨[98], false⟩, ⟨[97], true⟩] := by decide
+example : activeCount (rotationRoots [⟨[97], false, 5, 9⟩, ⟨[98], true, 9, 9⟩] (some [97])) = 1 := by decide
+/-- the hypotheses of `rate_limited_or_expired_never_issues` are satisfiable: a limiter created for
+    the configured value with no token left; a fresh limiter has one -/
+example : limiterTokens { rate := some 1, limiter := some (1, 0) } = some 0 := by decide
+example : limiterTokens { rate := some 2, limiter := some (1, 0) } = some 1 := by decide
 
 end CV.Ca
